@@ -146,6 +146,25 @@ impl<T: Clone> WaitList<T> {
         }
     }
 
+    /// A wait list with a ring of `slots` waiters instead of MAX_CONCURRENCY (verification only).
+    #[cfg(blue_verif)]
+    pub fn verif_with_slots(slots: usize) -> Self {
+        let mut waiters: Vec<Waiter<T>> = Vec::new();
+        for _ in 0..slots {
+            waiters.push(Waiter::new());
+        }
+        let state = WaitListState {
+            head: 0,
+            tail: 0,
+            waiting_for_available: 0,
+        };
+        Self {
+            state: Mutex::new(state),
+            waiters,
+            wait_waiter_available: Condvar::new(),
+        }
+    }
+
     /// Link into the wait list with the wait guard set to `t`.
     pub fn link(&self, t: T) -> WaitGuard<'_, T> {
         let mut state = self.state.lock().unwrap();
